@@ -23,6 +23,65 @@ def isSortedBy (le : Nat → Nat → Bool) : List Nat → Bool
   | a :: b :: rest => le a b && isSortedBy le (b :: rest)
   | _ => true
 
+/-- symbolic path: a leaf (by fingerprint) or the result of an operation on symbolic path sets -/
+inductive Term where
+  | leaf (fp : String)
+  | op (kind : String) (args : List (List Term))
+deriving Inhabited
+
+def symOps : Ops Term where
+  removeInterior p := [Term.op "remove_interior" [p]]
+  addChain ls := [Term.op "add_chain" ls]
+  sub a b := [Term.op "sub" [a, b]]
+  intersect a b := [Term.op "intersect" [a, b]]
+
+partial def Term.key : Term → String
+  | .leaf fp => "L" ++ fp
+  | .op k args => k ++ "(" ++ ",".intercalate (args.map fun a => "[" ++ ";".intercalate (a.map Term.key) ++ "]") ++ ")"
+
+/-- the operations behind a symbolic value in evaluation order (operands first, left to right) -/
+partial def opsOf (fuel : Nat) : Term → List (String × List (List Term))
+  | .leaf _ => []
+  | .op k args => (args.flatMap fun a => a.flatMap (opsOf fuel)) ++ [(k, args)]
+
+instance : Inhabited (Combine Term) := ⟨.path []⟩
+
+/-- prefix-form expression tree -/
+partial def parseTree (fuel : Nat) : P (Combine Term) := do
+  let t ← tok
+  match t with
+  | "P" => let fp ← tok; return .path [Term.leaf fp]
+  | "R" => let fp ← tok; return .removeInterior [Term.leaf fp]
+  | "A" => let n ← nat; let cs ← many n (parseTree fuel); return .add cs
+  | "S" => let n ← nat; let cs ← many n (parseTree fuel); return .subtract cs
+  | _ => let n ← nat; let cs ← many n (parseTree fuel); return .intersect cs
+
+/-- compares the model's operation list with the observed one; `none` = they agree -/
+def matchOps (emptyFp : String) : List (String × List (List Term)) → List (String × List String) → List (String × String) → Option String
+  | [], [], _ => none
+  | [], o :: _, _ => some s!"the implementation performs an extra operation {o.1}"
+  | e :: _, [], _ => some s!"the implementation does not perform the model's operation {e.1}"
+  | e :: es, o :: os, env =>
+    if e.1 != o.1 then some s!"model performs {e.1} where the implementation performs {o.1}"
+    else if e.2.length != o.2.length then some s!"{e.1}: model has {e.2.length} operands, implementation {o.2.length}"
+    else
+      let step := (e.2.zip o.2).foldl (fun (st : Option String × List (String × String)) (arg, fp) =>
+        match st.1 with
+        | some _ => st
+        | none =>
+          match arg with
+          | [Term.leaf l] => if l == fp then st else (some s!"{e.1}: operand is leaf {l} in the model but {fp} in the implementation", st.2)
+          | [t] =>
+            let k := t.key
+            match st.2.find? (·.1 == k) with
+            | some (_, f) => if f == fp then st else (some s!"{e.1}: the same intermediate result has two fingerprints", st.2)
+            | none => (none, (k, fp) :: st.2)
+          | [] => if fp == emptyFp then st else (some s!"{e.1}: operand is the empty set in the model but {fp} in the implementation", st.2)
+          | _ => (some s!"{e.1}: operand is not a single symbolic value", st.2)) (none, env)
+      match step.1 with
+      | some m => some m
+      | none => matchOps emptyFp es os step.2
+
 /-- ins: op ngroups (k hit*)* — groups in the order the implementation PROCESSED them (after its re-ordering);
     outs: nevents (start edge exterior)* -/
 def handle (opName : String) (ins outs : List String) : List Out :=
@@ -50,6 +109,21 @@ def handle (opName : String) (ins outs : List String) : List Out :=
     [mk "group_order" run.2.2 s!"a group is not in the order the model prescribes: {repr (groups.map (·.map (·.edgeIdx)))}",
      mk "set_edge_kind_events" (run.2.1 == events) s!"model={run.2.1} impl={events}",
      mk "counters_return_to_zero(info)" true ""]
+  | "combine" =>
+    -- ins: the expression tree in prefix form (P fp | R fp | A n … | S n … | I n …, fp = fingerprint of a leaf's paths);
+    -- outs: the operations the implementation entered, in order, through hook H4: n (name k fp*)*.
+    -- The model `combine` is run on symbolic path sets: the operations it performs, in evaluation order and with their
+    -- operands, must be the implementation's (an operand that is a leaf by its fingerprint, an intermediate result by
+    -- consistent binding of the fingerprint first seen for it).
+    let (tree, _) := (parseTree 64 : P _).run ins
+    let emptyFp := outs.headD ""
+    let (obs, _) := (do
+        let _ ← tok
+        let n ← nat
+        many n (do let name ← tok; let k ← nat; let fps ← many k tok; return (name, fps)) : P _).run outs
+    let expected := (combine symOps tree).flatMap (opsOf 64)
+    let res := matchOps emptyFp expected obs []
+    [mk "combine_operation_sequence" res.isNone (res.getD "")]
   | _ => [mk ("unknown-op " ++ opName) false "driver does not know this operation"]
 
 end Driver.C01
